@@ -12,6 +12,7 @@ US_MAX = 4102444800 * 10 ** 6  # 2100-01-01
 
 META = {
     "level": "exploration",
+    "technique": "property-based testing (hypothesis) against integer-microsecond oracles, plus a coverage-guided atheris/libFuzzer campaign with the oracle inside the target",
     "rule": ("instants drawn as integer microseconds in [1970, 2100) (whole seconds, ms, us and boundary-"
              "aimed: first/last second of months and years), rendered independently into every supported "
              "representation (aware/naive datetime, ISO string with Z / +-hh:mm / no zone and 0-6 fraction "
@@ -24,6 +25,7 @@ META = {
         "float epoch seconds compared within 1 microsecond (double spacing near 4e9 s is 4.8e-7 s)",
         "datetime64 inputs may come back either exact or truncated to whole seconds (the statement only promises whole seconds)",
         "packed time encodings 00mm / 0000ss are numerically indistinguishable from hh / hhmm and are excluded by construction",
+        "atheris/libFuzzer campaign (fuzz_iso_strings): bytes are decoded structure-aware into ISO-like strings (datetime.fromisoformat is C code, there is no coverage gradient), the oracle is an independent integer parser (days-from-civil) plus metamorphic relations; -runs and -seed are fixed by VERIF_SEED, empty and seeded corpus; strings rejected with ValueError/OverflowError are not violations",
     ],
 }
 
@@ -338,9 +340,63 @@ def run_packed(case):
             "excluded": {"packed_time_00mm_or_0000ss": 0}}
 
 
+# ----------------------------------------------------------------------------- atheris campaign
+def fuzz_cases():
+    import os
+    tier = os.environ.get("VERIF_TIER_EFFECTIVE", "quick")
+    shard = int(os.environ.get("VK_SHARD", "0"))
+    seed = int(os.environ.get("VERIF_SEED", "1")) * 1000 + shard + 1
+    return [{"runs": 40000 if tier == "quick" else 1500000, "fuzz_seed": seed, "corpus": "empty"},
+            {"runs": 20000 if tier == "quick" else 500000, "fuzz_seed": seed + 500, "corpus": "seeded"}]
+
+
+def run_fuzz(case):
+    """libFuzzer/atheris campaign on to_datetime_utc(str) with the oracle inside the target."""
+    import json
+    import os
+    import shutil
+    import subprocess
+    import sys
+    import tempfile
+    from .. import boot
+    boot.ensure_package("atheris")
+    work = tempfile.mkdtemp(prefix="vkfuzz_", dir=os.environ.get("TMPDIR") or tempfile.gettempdir())
+    try:
+        corpus = os.path.join(work, "corpus")
+        os.makedirs(corpus)
+        env = dict(os.environ, PYTHONPATH=boot.VERIF_ROOT + os.pathsep + boot.DEPS + os.pathsep + os.environ.get("PYTHONPATH", ""),
+                   VK_FUZZ_SEED_CORPUS="1" if case["corpus"] == "seeded" else "0")
+        p = subprocess.run([sys.executable, "-m", "vk.fuzz_c17", work, f"-runs={case['runs']}", f"-seed={case['fuzz_seed']}",
+                            "-max_len=64", corpus], cwd=work, env=env, capture_output=True, text=True, timeout=3600)
+        stats = {}
+        if os.path.exists(os.path.join(work, "stats.json")):
+            with open(os.path.join(work, "stats.json")) as fh:
+                stats = json.load(fh)
+        fpath = os.path.join(work, "failure.json")
+        if os.path.exists(fpath):
+            with open(fpath) as fh:
+                f = json.load(fh)
+            require(False, "fuzz_" + f["clause"], f"input={f['input']!r}: {f['detail']} (libFuzzer seed {case['fuzz_seed']})")
+        if p.returncode != 0:
+            tail = (p.stdout + p.stderr)[-1500:]
+            if "Uncaught Python exception" in tail and "ocean_science_utilities" in tail:
+                exc = [l for l in tail.splitlines() if "Error" in l][:1]
+                require(False, "fuzz_uncaught_exception", f"{exc} (libFuzzer seed {case['fuzz_seed']})")
+            raise RuntimeError("fuzz campaign failed: " + tail)
+        n = int(stats.get("grammar", 0))
+        return {"nontrivial": False,
+                "sub_cases": [([case["fuzz_seed"], s], True) for s in stats.get("samples", [])],
+                "class_counts": {"fuzz_executions": int(stats.get("executions", 0)), "fuzz_grammar_strings": n,
+                                 "fuzz_accepted": int(stats.get("accepted", 0)), "fuzz_rejected": int(stats.get("rejected", 0)),
+                                 "fuzz_corpus_" + case["corpus"]: 1}}
+    finally:
+        shutil.rmtree(work, ignore_errors=True)
+
+
 SUBCHECKS = [
     SubCheck("scalar", lambda tier: scalar_rep(), run_scalar, {"quick": 3000, "thorough": 20000},
              fixed=fixed_scalar),
     SubCheck("sequence", lambda tier: seq_case(), run_seq, {"quick": 1200, "thorough": 8000}),
     SubCheck("packed", lambda tier: packed_case(), run_packed, {"quick": 1500, "thorough": 8000}),
+    SubCheck("fuzz_iso_strings", None, run_fuzz, {"quick": 0, "thorough": 0}, fixed=fuzz_cases),
 ]
